@@ -294,6 +294,22 @@ pub fn run(args: &Args, rep: &mut Report) {
                                     format!("handle {} was opened on inode {:#x}; using it with inode {:#x} answered {:?} instead of EBADF", fh, hino, other, b),
                                 ));
                             }
+                            // a RELEASE naming the handle together with a wrong inode must not end the handle
+                            if k.is_none() && other != hino && r.chance(1, 2) {
+                                let probe = |kc: &mut Kc| -> Result<(), i32> {
+                                    if isdir { kc.pt.conn.readdir(hino, fh, 0, 4096, false).map(|_| ()) } else { kc.pt.conn.read(hino, fh, 0, 64, libc::O_RDONLY as u32).map(|_| ()) }
+                                };
+                                let before = probe(kc);
+                                let rel = kc.pt.conn.release(other, fh, 0, isdir);
+                                let after = probe(kc);
+                                kc.trace.push(format!("release({:#x} [wrong inode], fh={}) -> {:?}; use of ({:#x}, fh={}) before {:?}, after {:?}", other, fh, rel, hino, fh, before, after));
+                                if before.is_ok() && after.is_err() {
+                                    return Some((
+                                        "C15:wrong-inode-release-ended-handle".into(),
+                                        format!("RELEASE of handle {} with inode {:#x} (it was opened on {:#x}) answered {:?}; afterwards the handle answers {:?} on its own inode", fh, other, hino, rel, after),
+                                    ));
+                                }
+                            }
                         }
                         None
                     }
